@@ -195,7 +195,9 @@ def scripted_functions_class():
             def gen_sample(self):
                 v = self.config['script'][len(self.draws) % len(self.config['script'])]
                 self.draws.append(v)
-                return lambda t, v=v: v * t
+                def linear(t):       # a closure, not a default argument: the library inspects the signature
+                    return v * t
+                return linear
         _SCRIPTED_FUNCTIONS = ScriptedFunctions
     return _SCRIPTED_FUNCTIONS
 
